@@ -21,6 +21,7 @@ import (
 	"example.com/scion-time/core/timebase"
 	"example.com/scion-time/driver/clocks"
 	"example.com/scion-time/net/ntske"
+	"example.com/scion-time/net/scion"
 )
 
 // ---------------------------------------------------------------- child side
@@ -40,6 +41,18 @@ func childMain() {
 		// real-derivation keys: fetchers on a fake daemon whose host-AS keys depend on
 		// (protocol, fast-side IA and host, slow-side IA) as real DRKeys do
 		server.VerifC13StartSCIONServer(ctx, log, fakeDaemon{}, &net.UDPAddr{IP: ip, Port: port}, uint8(dscp), ntske.NewProvider())
+	case "srvgrpc":
+		// the production connector (scion.NewDaemonConnector) on a stand-in gRPC daemon whose keys
+		// rotate with the wall clock (keys.go)
+		daddr, err := startGRPCFake()
+		if err != nil {
+			os.Exit(4)
+		}
+		dc := scion.NewDaemonConnector(ctx, daddr)
+		if dc == nil {
+			os.Exit(5)
+		}
+		server.VerifC13StartSCIONServer(ctx, log, dc, &net.UDPAddr{IP: ip, Port: port}, uint8(dscp), ntske.NewProvider())
 	case "disp":
 		server.StartSCIONDispatcher(ctx, log, &net.UDPAddr{IP: ip, Port: port})
 	default:
@@ -62,6 +75,8 @@ func (c childCfg) ip() string {
 	switch {
 	case c.mode == "srvkeys":
 		return "127.0.13.11"
+	case c.mode == "srvgrpc":
+		return "127.0.13.12"
 	case c.mode == "disp":
 		return "127.0.13.5"
 	case c.mock == 1:
